@@ -1,3 +1,4 @@
+from common import guarded
 """C20  Every ingestion path builds the same estimator; concatenate! adds nothing.  Engine K (+RS structural)."""
 import os
 import kjobs
@@ -65,12 +66,12 @@ def run(tier, seed):
                       ("cov_ingest_glue", "Covariance", "FromIterator/Extend for Covariance"),
                       ("vm4::verif_kani::mn_ingest_glue", "Moments4", "impl_from_iterator!/impl_extend!(define_moments! type)")):
         job.add(Harness(h, "C20.%s.ingest_glue[len<=3]" % ob, fn, bounded=BOUND))
-    obs = job.run()
+    obs = guarded("C20.engine.job.run@L68", lambda: job.run())
     pr = Prover("C20", tier)
     estimate_same_term(pr)
     obs += pr.obs
     import glue_struct
-    obs += glue_struct.glue_obligations("C20")
+    obs += guarded("C20.engine.glue_struct.glue_obligations@L73", lambda: glue_struct.glue_obligations("C20"))
     meta = {
         "level": "proof",
         "checker_cmd": "cargo kani -Z stubbing (scratch copy + contracts/kani/{ingest_*,concat,moments_c20}.rs); RS structural check for estimate()",
